@@ -11,13 +11,18 @@ package agent
 
 import (
 	"bytes"
+	"context"
 	"fmt"
+	"io"
+	"net"
 	"sync"
+	"sync/atomic"
 	"testing"
 	"time"
 
 	"golang.org/x/crypto/chacha20poly1305"
 
+	"github.com/postalsys/muti-metroo/internal/crypto"
 	"github.com/postalsys/muti-metroo/internal/protocol"
 	"github.com/postalsys/muti-metroo/internal/verifkit"
 )
@@ -159,6 +164,145 @@ func TestVerif_C04(t *testing.T) {
 			r.Sample(map[string]any{"topology": tp.Name, "tunnels": len(results), "data_frames_scanned": scanned, "payload_bytes_scanned": scannedBytes, "session_keys": len(per), "first_plans": out.Plans[:min(3, len(out.Plans))]})
 		}
 	})
+	c04CancelAtAck(t, r)
 	r.Require("data_frames_scanned", 200)
 	r.Require("session_keys_observed", 4)
+	r.Require("cancel_at_ack_dials", 20)
+}
+
+// c04CancelAtAck: the dial's context is cancelled at the very moment the open acknowledgement
+// reaches the ingress (the cancel is issued from the ingress's read tap, before the frame is
+// dispatched), so "cancelled" and "answered" become ready together; whatever the dial returns,
+// the caller uses it (writes canary data, reads) and closes. A transit has seen both ephemeral
+// public keys and the request id on the wire; every session key derived anywhere is compared
+// with the keys those public values alone give (an all-zero private scalar on either side): a
+// match means the tunnel's traffic is readable by the transit.
+func c04CancelAtAck(t *testing.T, r *verifkit.R) {
+	var chain3 c16Topo
+	for _, tp := range c16Topologies() {
+		if tp.Name == "chain3" {
+			chain3 = tp
+		}
+	}
+	r.Cases("cancel-at-ack", r.N(2, 12), func(ci int, rng *verifkit.Rand) {
+		dest, err := mkStartDest()
+		if err != nil {
+			r.Inconclusive(err.Error())
+			return
+		}
+		defer dest.close()
+		ct := mkInstallCryptoTap(false)
+		defer ct.close()
+		tap := mkInstallTap()
+		defer tap.close()
+		m, err := c16BuildMesh(t, chain3, dest, 30*time.Second)
+		if err != nil {
+			r.Inconclusive("mesh did not come up: " + err.Error())
+			return
+		}
+		defer m.stop()
+		ing := m.nodes[0].a
+		type pub struct {
+			in, ex [32]byte
+			haveIn, haveEx bool
+		}
+		var pmu sync.Mutex
+		pubs := map[uint64]*pub{}
+		var cancelNext atomic.Value // context.CancelFunc of the dial in progress
+		tap.mu.Lock()
+		tap.onPayload = func(ev *mkFrameEv, payload []byte) {
+			switch ev.Type {
+			case protocol.FrameStreamOpen:
+				if o, err := protocol.DecodeStreamOpen(payload); err == nil {
+					pmu.Lock()
+					p := pubs[o.RequestID]
+					if p == nil {
+						p = &pub{}
+						pubs[o.RequestID] = p
+					}
+					p.in, p.haveIn = o.EphemeralPubKey, true
+					pmu.Unlock()
+				}
+			case protocol.FrameStreamOpenAck:
+				if a, err := protocol.DecodeStreamOpenAck(payload); err == nil {
+					pmu.Lock()
+					p := pubs[a.RequestID]
+					if p == nil {
+						p = &pub{}
+						pubs[a.RequestID] = p
+					}
+					p.ex, p.haveEx = a.EphemeralPubKey, true
+					pmu.Unlock()
+				}
+				if !ev.Write && ev.Local == ing.ID() {
+					if c, ok := cancelNext.Load().(context.CancelFunc); ok && c != nil {
+						c() // the acknowledgement is here, not yet dispatched
+					}
+				}
+			}
+		}
+		tap.mu.Unlock()
+		n := r.N(24, 120)
+		returned, used := 0, 0
+		for k := 0; k < n; k++ {
+			ctx, cancel := context.WithCancel(context.Background())
+			cancelNext.Store(cancel)
+			var conn net.Conn
+			var derr error
+			if k%3 == 2 {
+				conn, derr = ing.DialForward(ctx, "fwd-exit")
+			} else {
+				conn, derr = ing.DialContext(ctx, "tcp", fmt.Sprintf("127.1.12.%d:%d", 1+k%200, dest.port))
+			}
+			cancelNext.Store(context.CancelFunc(func() {}))
+			r.Add("cancel_at_ack_dials", 1)
+			if derr == nil && conn != nil {
+				returned++
+				// the caller carries on with what it was given
+				buf := make([]byte, 2000)
+				mkGen(uint64(ci)<<20|uint64(k), 0, 0, buf)
+				conn.SetDeadline(time.Now().Add(500 * time.Millisecond))
+				if _, err := conn.Write(buf); err == nil {
+					used++
+				}
+				io.CopyN(io.Discard, conn, 1)
+				conn.Close()
+			}
+			cancel()
+		}
+		time.Sleep(300 * time.Millisecond)
+		// (snapshot first: DeriveSessionKey below passes through the same tap)
+		ct.mu.Lock()
+		derived := append([]mkKeyEv(nil), ct.derived...)
+		ct.mu.Unlock()
+		ct.close()
+		// keys computable from what a transit saw
+		var zero [32]byte
+		publicOnly := map[[8]byte]string{}
+		pmu.Lock()
+		for req, p := range pubs {
+			if !p.haveIn || !p.haveEx {
+				continue
+			}
+			if s1, err := crypto.ComputeECDH(zero, p.ex); err == nil {
+				publicOnly[mkKeyFP(crypto.DeriveSessionKey(s1, req, p.in, p.ex, true))] = fmt.Sprintf("request %d: initiator key from a zero private scalar and the exit's public key", req)
+			}
+			if s2, err := crypto.ComputeECDH(zero, p.in); err == nil {
+				publicOnly[mkKeyFP(crypto.DeriveSessionKey(s2, req, p.in, p.ex, false))] = fmt.Sprintf("request %d: responder key from a zero private scalar and the ingress's public key", req)
+			}
+		}
+		npubs := len(pubs)
+		pmu.Unlock()
+		for _, e := range derived {
+			if why, ok := publicOnly[e.FP]; ok {
+				r.Violation("session-key-computable-from-public-values", "cancel-at-ack", ci,
+					fmt.Sprintf("an agent derived (initiator=%v) and used session key %x, which a transit can compute from the STREAM_OPEN and STREAM_OPEN_ACK it relayed (%s); the dial had been cancelled as its acknowledgement arrived", e.Initiator, e.FP, why), nil)
+			}
+		}
+		r.Add("cancel_at_ack_conns_returned", returned)
+		r.Add("cancel_at_ack_conns_used", used)
+		r.Add("cancel_at_ack_key_pairs_seen_on_wire", npubs)
+		r.Add("session_keys_observed", len(derived))
+		r.Eval(fmt.Sprintf("cancel-at-ack/%d/%d/%d", ci, n, returned), npubs >= n/2)
+	})
 }
